@@ -93,6 +93,9 @@ type MergeCase struct {
 	// GatewayFields: query fields the gateway is given of its own (WithQueryFields); the gateway's own additions to
 	// the merged schema are then Node, Query.node and these
 	GatewayFields []GwField `json:"gateway_fields,omitempty"`
+	// OldPrelude: 1 + the index of a service whose schema comes with the built-in directives of an older
+	// specification (`@deprecated` on fields and enum values only), as a schema obtained from an older server does
+	OldPrelude int `json:"old_prelude_service,omitempty"`
 }
 
 // GwField describes one gateway query field: `name(token: String!)?: [T]?`
